@@ -56,6 +56,37 @@ fn run_case(sc: &Value, rng: &mut SmallRng) -> Vec<Value> {
                 // one hex digit of the key differs
                 wire[20] = if wire[20] == b'0' { b'1' } else { b'0' };
             }
+            let shapes: Vec<Vec<u8>> = if sk == "shape" {
+                // 56 characters where the hex digest belongs, none of them a key: not hexadecimal at all, not hexadecimal in
+                // the first pair only (the rest is the right digest), blanks, upper-case letters beyond F
+                let right = rv::trojan_key(sut::TROJAN_PW).to_vec();
+                let mut first_pair = right.clone();
+                first_pair[0] = b'z';
+                first_pair[1] = b'z';
+                let mut last_pair = right.clone();
+                last_pair[54] = b'-';
+                last_pair[55] = b'-';
+                vec![vec![b'z'; 56], vec![b' '; 56], vec![b'-'; 56], vec![b'G'; 56], first_pair, last_pair, vec![b'0'; 56]]
+            } else {
+                vec![]
+            };
+            if sk == "shape" {
+                for (i, key) in shapes.iter().enumerate() {
+                    let mut wire = key.clone();
+                    wire.extend_from_slice(b"\r\n");
+                    wire.push(1);
+                    wire.extend_from_slice(&addr().socks());
+                    wire.extend_from_slice(b"\r\n");
+                    wire.extend_from_slice(b"GET / HTTP/1.1\r\n\r\n");
+                    if truncated {
+                        wire.truncate(40);
+                    }
+                    let l = sv::listener(&sut::trojan_server_cfg(sut::TROJAN_PW)).unwrap();
+                    let got = sut::server_decode(&mut l.new_codec().unwrap(), &mut BytesMut::from(&wire[..]));
+                    out.push(json!({"variant": format!("trojan key field {}", i), "emit": emitted(&got), "user": "-", "reply": if emitted(&got) { "server" } else { "none" }, "detail": brief(&got)}));
+                }
+                return out;
+            }
             if sk == "none" {
                 // any other protocol's handshake, or random bytes (never a Trojan header)
                 wire = loop {
@@ -124,6 +155,7 @@ fn run_case(sc: &Value, rng: &mut SmallRng) -> Vec<Value> {
                     let server_key = match sk {
                         "right" => right.clone(),
                         "onebit" => flip_bit(&right),
+                        "shape" => vec![0u8; n],
                         _ => sut::key_raw(c, 99),
                     };
                     let user_key = match user_index(uk) {
@@ -132,11 +164,20 @@ fn run_case(sc: &Value, rng: &mut SmallRng) -> Vec<Value> {
                     };
                     let pw = if multi { format!("{}:{}", rc::b64e(&server_key), rc::b64e(&user_key)) } else { rc::b64e(&server_key) };
                     let r = rc::Req2022 { typ: 0, ts: now, addr: addr(), padding: 0, first_payload: b"hello".to_vec(), salt: salt.clone() };
-                    rc::ss2022_request(c, &pw, &r).out
+                    let mut w = rc::ss2022_request(c, &pw, &r).out;
+                    if multi && sc["claim"].as_str() == Some("other") {
+                        // the identity header names the OTHER registered user; everything behind it stays sealed under this one's key
+                        let other = rc::b64(&us[1 - user_index(uk).unwrap_or(0)].1);
+                        let pw2 = format!("{}:{}", rc::b64e(&server_key), rc::b64e(&other));
+                        let w2 = rc::ss2022_request(c, &pw2, &r).out;
+                        w[n..n + 16].copy_from_slice(&w2[n..n + 16]);
+                    }
+                    w
                 } else {
                     let pw = match sk {
                         "right" => sut::LEGACY_PW.to_owned(),
                         "onebit" => sut::LEGACY_PW.replace('l', "m"),
+                        "shape" => String::new(),
                         _ => "not the password".to_owned(),
                     };
                     let mut s = rc::legacy_stream(c, &pw, &salt);
@@ -183,6 +224,8 @@ fn run_case(sc: &Value, rng: &mut SmallRng) -> Vec<Value> {
                 let users = if multi { 2 } else { 0 };
                 let (_, sp, us) = sut::ss_passwords(c, users);
                 let n = c.key_len();
+                let prior = sc["prior"].as_bool() == Some(true);
+                let mut prior_wire: Option<Vec<u8>> = None;
                 let wire: Vec<u8> = if sk == "none" {
                     other_protocol(rng, 3)
                 } else if c.is_2022() {
@@ -190,6 +233,7 @@ fn run_case(sc: &Value, rng: &mut SmallRng) -> Vec<Value> {
                     let server_key = match sk {
                         "right" => right.clone(),
                         "onebit" => flip_bit(&right),
+                        "shape" => vec![0u8; n],
                         _ => sut::key_raw(c, 99),
                     };
                     let user_key = match user_index(uk) {
@@ -197,12 +241,29 @@ fn run_case(sc: &Value, rng: &mut SmallRng) -> Vec<Value> {
                         None => sut::key_raw(c, 77),
                     };
                     let pw = if multi { format!("{}:{}", rc::b64e(&server_key), rc::b64e(&user_key)) } else { rc::b64e(&server_key) };
-                    let p = rc::Udp2022 { session_id: rng.random(), packet_id: 1, typ: 0, ts: now, client_session_id: None, padding: 0, addr: addr(), payload: b"dgram".to_vec() };
-                    rc::udp2022_packet(c, &pw, &p, &rng.random())
+                    let sid: u64 = rng.random();
+                    let pid = if prior { 2 } else { 1 };
+                    let p = rc::Udp2022 { session_id: sid, packet_id: pid, typ: 0, ts: now, client_session_id: None, padding: 0, addr: addr(), payload: b"dgram".to_vec() };
+                    let nonce: [u8; 24] = rng.random();
+                    let mut w = rc::udp2022_packet(c, &pw, &p, &nonce);
+                    if multi && sc["claim"].as_str() == Some("other") {
+                        // identity header of the OTHER registered user on a body sealed under this one's key
+                        let other = rc::b64(&us[1 - user_index(uk).unwrap_or(0)].1);
+                        let pw2 = format!("{}:{}", rc::b64e(&server_key), rc::b64e(&other));
+                        let w2 = rc::udp2022_packet(c, &pw2, &p, &nonce);
+                        w[16..32].copy_from_slice(&w2[16..32]);
+                    }
+                    if prior {
+                        // the datagram this peer sent just before: same session, its own identity, packet id 1
+                        let p1 = rc::Udp2022 { packet_id: 1, payload: b"first".to_vec(), ..p.clone() };
+                        prior_wire = Some(rc::udp2022_packet(c, &pw, &p1, &rng.random()));
+                    }
+                    w
                 } else {
                     let pw = match sk {
                         "right" => sut::LEGACY_PW.to_owned(),
                         "onebit" => sut::LEGACY_PW.replace('l', "m"),
+                        "shape" => String::new(),
                         _ => "not the password".to_owned(),
                     };
                     let mut salt = vec![0u8; n];
@@ -210,7 +271,17 @@ fn run_case(sc: &Value, rng: &mut SmallRng) -> Vec<Value> {
                     rc::legacy_udp_packet(c, &pw, &salt, &addr(), b"dgram")
                 };
                 let wire = if truncated { wire[..wire.len() / 2].to_vec() } else { wire };
-                let d = ssudp::server_decode_full(c, &sp, &us, &wire);
+                let d = match prior_wire {
+                    Some(first) => {
+                        let mut ds = ssudp::server_decode_seq(c, &sp, &us, &[first, wire.clone()]);
+                        if !emitted(&ds[0].got) {
+                            out.push(json!({"variant": c.name(), "emit": false, "user": "-", "reply": "none", "detail": format!("TOOL: the prior valid datagram was refused: {}", brief(&ds[0].got))}));
+                            continue;
+                        }
+                        ds.pop().unwrap()
+                    }
+                    None => ssudp::server_decode_full(c, &sp, &us, &wire),
+                };
                 let mut reply = "none".to_owned();
                 let mut user = "-".to_owned();
                 if emitted(&d.got) {
